@@ -26,7 +26,7 @@ REQUIRED_LABELS = ["mass share equals declared fraction"]
 
 
 def bounds(tier):
-    return {"components": "2..3 (quick), 2..4 (thorough)", "fractions": "(0,100), sum 100", "mean masses": "[1, 1e5]"}
+    return {"components": "2..3 (quick), 2..4 (thorough)", "fractions": "[0,100], sum 100", "mean masses": "[1, 1e5]"}
 
 
 T4 = "C.|25%|CC.|25%|O.|25%|N.|100|"
@@ -50,9 +50,9 @@ def run_case(case, g, tier, res):
     def h(c):
         system = g.System(TEXT[k] if k in TEXT else T4)
         S = c.fresh_real("S", 1, 1e9)
-        fr = [c.fresh_real(f"f{i}", 0, 100, lo_strict=True) for i in range(k - 1)]
+        fr = [c.fresh_real(f"f{i}", 0, 100) for i in range(k - 1)]  # a declared share of exactly 0 % is allowed
         last = 100 - sum(fr, 0.0)
-        c.assume(last > 0)
+        c.assume(last >= 0)
         fr.append(last)
         mbar = [c.fresh_real(f"mbar{i}", 1, 1e5) for i in range(k)]
         for mol, f in zip(system._molecules, fr):
